@@ -2,30 +2,27 @@
    Only statements, [exact], and Print Assumptions live here. *)
 From PG Require Import Lib.Strs Model.Transport Proofs.Transport.
 
-(* For every history of requests through one transport: under the guard (no two header names
-   differing only in case [F17b]) each request that leaves the transport carries exactly the
-   documented headers (case-insensitively: defaults < per-request < plugins in composition order),
-   an API key at its configured location (header, query or cookie) under its configured name,
-   caller params/cookies/body otherwise unchanged, and it fails exactly when an API key has an
-   invalid location. *)
-Theorem C17_partial : forall kws t,
-  (forall kw, In kw kws -> guard t kw = true) ->
-  Forall3 agrees1 kws (session t kws) (spec_session t kws).
+(* FULL statement.  For every transport (defaults, any composition tree of the bundled plugins, bearer
+   token) and every history of requests through it (OAuth2 refresh state persists): each request that
+   leaves the transport carries exactly one field per case-insensitive header name, whose value is the
+   documented one (defaults < per-request headers < each plugin's contribution in composition order,
+   auth plugin over bearer_token), an API key at its configured location (header, query or cookie)
+   under its configured name, the caller's params / cookies / body otherwise unchanged; and it fails
+   exactly when an API key has an invalid location.  No guard: both defects that used to refute this
+   (F17a, F17b) were repaired in /repo. *)
+Theorem C17_full : forall kws t, Forall3 agrees1 kws (session t kws) (spec_session t kws).
 Proof. exact session_agrees. Qed.
-Print Assumptions C17_partial.
+Print Assumptions C17_full.
 
-Theorem C17_refuted_F17b :
-  guard_F17b t_F17b kw_F17b = false /\ ~ agrees t_F17b kw_F17b.
-Proof. exact refuted_F17b. Qed.
-Print Assumptions C17_refuted_F17b.
-
-Theorem C17_guard_nonvacuous : exists t kw, guard t kw = true /\ t_auth t <> None /\ k_headers kw <> None.
-Proof. eexists _, _. split; [exact guard_nonvacuous | split; discriminate]. Qed.
-Print Assumptions C17_guard_nonvacuous.
-
-(* regression witness for the repaired defect F17a *)
+(* regression witnesses of the repaired defects *)
 Theorem C17_apikey_query_reaches_wire :
   snd (request {| t_defaults := None; t_auth := Some (ApiKey s_v s_query s_k); t_bearer := None |} kw0)
   = Ok {| w_headers := []; w_params := Some [(s_k, s_v)]; w_cookies := None; w_body := [] |}.
 Proof. exact apikey_query_reaches_wire. Qed.
 Print Assumptions C17_apikey_query_reaches_wire.
+
+Theorem C17_case_variant_overrides :
+  snd (request t_F17b kw_F17b)
+  = Ok {| w_headers := [(s_xd, s_k)]; w_params := None; w_cookies := None; w_body := [] |}.
+Proof. exact case_variant_overrides. Qed.
+Print Assumptions C17_case_variant_overrides.
